@@ -1,8 +1,36 @@
-/- Driver ops for C08 (none yet). -/
-import Xrfmv.Drv.Common
+/- Driver ops for C08: one split node – masks of the rank split and the prediction routing rule. -/
+import Xrfmv.Drv.C07
+import Xrfmv.Model.RouteAgree
+
+open Lean Xrfmv.Drv
 
 namespace Xrfmv.Drv.C08
+open Xrfmv.BuildIndex Xrfmv.Gen.Split Xrfmv.Gen.Route
 
-def ops : List (String × Handler) := []
+/-- `{"op":"node","proj":[bits..],"sorted":[..],"thr":bits,"r":int,"val":[bits..]}` →
+contract flags, the two masks the model derives from `sorted`, the prediction-rule decision per training
+position and the validation-rule decision per validation projection. -/
+def opNode : Handler := fun j => do
+  let proj ← getFs j "proj"
+  let sorted ← j.getObjValAs? (List Nat) "sorted"
+  let thr ← getF j "thr"
+  let r ← j.getObjValAs? Int "r"
+  let vals ← getFs j "val"
+  let n := proj.size
+  if proj.any Float.isNaN ∨ thr.isNaN then throw "bad-op: NaN projection"
+  let isPerm := decide (sorted.length = n) && (List.range n).all (fun i => sorted.contains i)
+  let sp := sorted.map fun i => proj.getD i 0.0
+  let asc := (List.range (n - 1)).all fun k => decide (sp.getD k 0.0 ≤ sp.getD (k + 1) 0.0)
+  let med := sp.getD ((n - 1) / 2) 0.0
+  let left := (List.range n).map (sideMask n sorted r .left)
+  let right := (List.range n).map (sideMask n sorted r .right)
+  let goes := (List.range n).map fun i => goesLeft (proj.getD i 0.0) thr
+  let vgoes := vals.toList.map fun v => valGoesLeft v thr
+  let pgoes := vals.toList.map fun v => goesLeft v thr
+  pure <| Json.mkObj [("isPerm", toJson isPerm), ("ascending", toJson asc), ("medianIsLower", toJson (med == thr)),
+    ("left", toJson left), ("right", toJson right), ("goesLeft", toJson goes),
+    ("valGoesLeft", toJson vgoes), ("valPredGoesLeft", toJson pgoes)]
+
+def ops : List (String × Handler) := Xrfmv.Drv.C07.ops ++ [("node", opNode)]
 
 end Xrfmv.Drv.C08
